@@ -379,6 +379,7 @@ type LoopContract struct {
 	Ordinal    int
 	Invariants []*Clause
 	BodyAsserts []*Clause // proved then assumed at the entry of the loop body
+	NoBreak     bool      // the loop is left only at its header or by returning
 	PreservesOld bool     // frame invariant: objects older than the function entry are not written
 }
 
